@@ -243,7 +243,7 @@ def check_point(scn, seed, point, downtime, ref_out, arn, ref_reqs=None):
     if state["idle"] and out is not None and ref_out is not None and out != ref_out and \
             not any(f["rule"] in ("never-terminal", "terminal-twice") for f in findings):
         findings.append({"property": PROP, "rule": "outcome-changed",
-                         "witness": classify_witness("outcome-changed", point, state, res),
+                         "witness": classify_witness("outcome-changed", point, state, res) + signature(state, out),
                          "detail": "%s (engine idle): crash-free %r, with crash %r" % (ctx, ref_out, out)})
     if res.sim.errors and not findings:
         findings.append({"property": PROP, "rule": "engine-exception-after-restart",
@@ -289,8 +289,8 @@ def situation(res, node):
             d = res.scenario["machines"][arn.split(":")[6]]["definition"]
         except (ValueError, KeyError, TypeError, AttributeError, IndexError):
             continue
-        if find_type_deep(d, st.get("Name") or d.get("StartAt")) == "Task":
-            out.add("unsent-task-request")
+        if find_type_deep(d, st.get("Name") or d.get("StartAt")) in ("Task", "Task:child"):
+            out.add("unsent-task-request")      # (for a child-launching Task: the child's start event is what is unsent)
     if se is not None:
         for arn, bm in se.branch_metadata.items():
             for r in bm.results.values():
@@ -300,8 +300,12 @@ def situation(res, node):
 
 
 def find_type_deep(machine, name):
+    """Type of the named state; a Task that launches a child execution is reported as "Task:child" (its 'request' is
+    the child's start event, which a redelivered launching event re-attaches to: nothing is left unsent)."""
     for n, st in (machine.get("States") or {}).items():
         if n == name:
+            if st.get("Type") == "Task" and re.search(r":(states|sfn):start", str(st.get("Resource"))):
+                return "Task:child"
             return st.get("Type")
         subs = list(st.get("Branches") or []) + [st[k] for k in ("ItemProcessor", "Iterator") if isinstance(st.get(k), dict)]
         for sub in subs:
@@ -309,6 +313,15 @@ def find_type_deep(machine, name):
             if t:
                 return t
     return None
+
+
+def signature(state, out):
+    """The recorded in-memory situations all end the same way: the request / result that existed only in the dead
+    process is waited for until a time-out fails the execution.  Any other end at such a crash point is something else
+    and must not hide behind the recorded witness."""
+    if (state.get("situation") or state.get("situations")) and not (out[0] == "FAILED" and out[2] == "States.Timeout"):
+        return ":ends-" + str(out[2] or out[0])
+    return ""
 
 
 def classify_witness(rule, point, state, res):
@@ -575,7 +588,8 @@ def check_multi(case, seed):
         for ename, arn in sorted(res.exec_arns.items()):
             out, ref_out = outcome(res, arn), outcome(ref, ref.exec_arns.get(ename))
             if out is not None and ref_out is not None and out != ref_out:
-                findings.append({"property": PROP, "rule": "outcome-changed", "witness": wit,
+                findings.append({"property": PROP, "rule": "outcome-changed",
+                                 "witness": wit + (signature({"situation": sits}, out) if sits else ""),
                                  "detail": "%s (engine idle at every crash): %s crash-free %r, with crashes %r" % (
                                      ctx, ename, ref_out, out)})
         t_end = res.sim.now - res.sim.epoch
@@ -798,7 +812,7 @@ def main(argv):
              "unacknowledged by the restarted engine; a further sampled slice places 1-2 crashes around a task-token callback "
              "(SendTaskSuccess retried until answered 200, with and without an ordinary worker reply): an accepted callback "
              "completes its task; distinct = distinct (scenario, crash point, down-time)" % (len(names), DOWNTIMES),
-        assumptions=["single engine instance, file-backed ASL store", "workers keep running and reply while the engine is down",
+        assumptions=["enumerated slice: single engine instance, file-backed ASL store (the sampled multi-crash slice adds Redis, the blocking transport and a second instance)", "workers keep running and reply while the engine is down",
                      "one crash per run at quick tier"])
 
 
